@@ -122,14 +122,14 @@ Definition m_receive (c sender : addr) (amt : N) (h : hook) : cmsg :=
   MWasm c (WHub (HReceive sender amt h)) [].
 Definition m_check_slashing (hubaddr : addr) : cmsg := MWasm hubaddr (WHub HCheckSlashing) [].
 
-Definition bsei_execute (w : world) (sender : addr) (m : cw20_msg) : result (world * list cmsg) :=
-  do t <- w_bsei w;
+Definition bsei_execute (w : world) (t : token) (sender : addr) (m : cw20_msg)
+  : result (token * list cmsg) :=
   let now := e_now (w_env w) in
   match m with
   | CIncAllow s amt e =>
-      do t' <- tok_inc_allow false t now sender s amt e; Some (set_bsei w t', [])
+      do t' <- tok_inc_allow false t now sender s amt e; Some (t', [])
   | CDecAllow s amt e =>
-      do t' <- tok_dec_allow false t now sender s amt e; Some (set_bsei w t', [])
+      do t' <- tok_dec_allow false t now sender s amt e; Some (t', [])
   | CUpdMinter _ => None                      (* not a cw20-legacy message *)
   | _ =>
       do rc <- query_reward_contract w t;
@@ -137,75 +137,75 @@ Definition bsei_execute (w : world) (sender : addr) (m : cw20_msg) : result (wor
       | CTransfer to amt =>
           check negb (amt =? 0);
           do t' <- tok_move t sender to amt;
-          Some (set_bsei w t', [m_dec rc sender amt; m_inc rc to amt])
+          Some (t', [m_dec rc sender amt; m_inc rc to amt])
       | CBurn amt =>
           check sender =? tk_hub t;
           check negb (amt =? 0);
           do t' <- tok_burn_from_acct t sender amt;
-          Some (set_bsei w t', [m_dec rc sender amt])
+          Some (t', [m_dec rc sender amt])
       | CMint to amt =>
           do t' <- tok_mint t sender to amt;
-          Some (set_bsei w t', [m_inc rc to amt])
+          Some (t', [m_inc rc to amt])
       | CSend c amt h =>
           check negb (amt =? 0);
           do t' <- tok_move t sender c amt;
-          Some (set_bsei w t', [m_dec rc sender amt; m_inc rc c amt; m_receive c sender amt h])
+          Some (t', [m_dec rc sender amt; m_inc rc c amt; m_receive c sender amt h])
       | CTransferFrom o to amt =>
           do t1 <- deduct_allowance t now o sender amt;
           do t' <- tok_move t1 o to amt;
-          Some (set_bsei w t', [m_dec rc o amt; m_inc rc to amt])
+          Some (t', [m_dec rc o amt; m_inc rc to amt])
       | CBurnFrom o amt =>
           do t1 <- deduct_allowance t now o sender amt;
           do t' <- tok_burn_from_acct t1 o amt;
-          Some (set_bsei w t', [m_dec rc o amt; m_check_slashing (tk_hub t)])
+          Some (t', [m_dec rc o amt; m_check_slashing (tk_hub t)])
       | CSendFrom o c amt h =>
           do t1 <- deduct_allowance t now o sender amt;
           do t' <- tok_move t1 o c amt;
-          Some (set_bsei w t', [m_dec rc o amt; m_inc rc c amt; m_receive c sender amt h])
+          Some (t', [m_dec rc o amt; m_inc rc c amt; m_receive c sender amt h])
       | _ => None
       end
   end.
 
 (** ** stSei *)
-Definition stsei_execute (w : world) (sender : addr) (m : cw20_msg) : result (world * list cmsg) :=
-  do t <- w_stsei w;
+Definition stsei_execute (w : world) (t : token) (sender : addr) (m : cw20_msg)
+  : result (token * list cmsg) :=
   let now := e_now (w_env w) in
   match m with
   | CTransfer to amt =>
       check negb (amt =? 0);
-      do t' <- tok_move t sender to amt; Some (set_stsei w t', [])
+      do t' <- tok_move t sender to amt; Some (t', [])
   | CBurn amt =>
       check sender =? tk_hub t;
       check negb (amt =? 0);
       do t' <- tok_burn_from_acct t sender amt;
-      Some (set_stsei w t', [m_check_slashing (tk_hub t)])
+      Some (t', [m_check_slashing (tk_hub t)])
   | CMint to amt =>
-      do t' <- tok_mint t sender to amt; Some (set_stsei w t', [])
+      do t' <- tok_mint t sender to amt; Some (t', [])
   | CSend c amt h =>
       check negb (amt =? 0);
       do t' <- tok_move t sender c amt;
-      Some (set_stsei w t', [m_receive c sender amt h])
+      Some (t', [m_receive c sender amt h])
   | CIncAllow s amt e =>
-      do t' <- tok_inc_allow true t now sender s amt e; Some (set_stsei w t', [])
+      do t' <- tok_inc_allow true t now sender s amt e; Some (t', [])
   | CDecAllow s amt e =>
-      do t' <- tok_dec_allow true t now sender s amt e; Some (set_stsei w t', [])
+      do t' <- tok_dec_allow true t now sender s amt e; Some (t', [])
   | CTransferFrom o to amt =>
       do t1 <- deduct_allowance t now o sender amt;
-      do t' <- tok_move t1 o to amt; Some (set_stsei w t', [])
+      do t' <- tok_move t1 o to amt; Some (t', [])
   | CBurnFrom o amt =>
       do t1 <- deduct_allowance t now o sender amt;
       do t' <- tok_burn_from_acct t1 o amt;
-      Some (set_stsei w t', [m_check_slashing (tk_hub t)])
+      Some (t', [m_check_slashing (tk_hub t)])
   | CSendFrom o c amt h =>
       do t1 <- deduct_allowance t now o sender amt;
       do t' <- tok_move t1 o c amt;
-      Some (set_stsei w t', [m_receive c sender amt h])
+      Some (t', [m_receive c sender amt h])
   | CUpdMinter nm =>
       match tk_minter t with
       | None => None
       | Some (mn, cap) =>
           check mn =? sender;
-          Some (set_stsei w (set_tk_minter t (match nm with Some a => Some (a, cap) | None => None end)), [])
+          Some (set_tk_minter t (match nm with Some a => Some (a, cap) | None => None end), [])
       end
   end.
 
